@@ -1,5 +1,5 @@
 """C06 - resources never exceed capacity, grant in queue order, never idle a slot"""
-from . import resources as R, whomay
+from . import resources as R, whomay, deps
 
 def check(ctx):
     R.run_tables(ctx, 'C06', [
@@ -22,6 +22,7 @@ def check(ctx):
         'PreemptiveResource._do_put': 'eviction of the preempted user'}, 1,
         'the user list is changed only by grant, release and eviction')
     whomay.queue_writers(ctx, 'C06')
+    deps.kernel(ctx, 'C06')
     return ('Static: Resource._do_put/_do_get (grant iff len(users) < capacity), the scan loops _trigger_put/_trigger_get '
             '(from the head, stop at the first request that cannot proceed), Put/Get constructors and cancel (enqueue, '
             'cross-subscribe, rescan), Request.__exit__/Release, PriorityRequest key (priority, time, not preempt), '
